@@ -14,6 +14,9 @@ Decided:
          output summaries
   R13.5  setters commute: no GHEManager setter reads an attribute that another setter writes
          (set_design, which snapshots the configuration, and the pipe setters' use of pipe_type excepted)
+  R13.7  no function changes a container parameter in place when a call site hands it stored state (attribute,
+         element of an attribute container, module-level container, or what a callee returns from those); frozen
+         accept table for the diagnostic logs
   R13.6  the nominal borehole height is dead: on every path of the search classes the first use of the
          live GHE object is preceded by initialize_ghe / calculate_excess, which set an explicit height
 
@@ -210,6 +213,7 @@ def check(prog: Program, tier: str) -> Result:
 
     _check_mutable_defaults(prog, res)
     _check_globals_and_nondeterminism(prog, res)
+    _check_param_mutation(prog, res)
     _check_setters(prog, res, ea)
     _check_nominal_height(prog, res)
     return res
@@ -305,6 +309,52 @@ def _check_mutable_defaults(prog: Program, res: Result):
                                   f"mutable default {pname}={ast.unparse(d)} is shared between calls and {why}")
     res.count("mutable_defaults", n)
     res.floor("mutable_defaults", 2)
+
+
+# (function, parameter) -> reason: container parameters that receive stored state and are extended in place by design
+PARAM_MUTATION_ACCEPT = {
+    ("perform_current_month_simulation", "two_day_fluid_temps_pk"): "diagnostic log of the two-day responses of the HybridLoad object under construction; written once per month by its constructor, never read by the computation",
+    ("perform_current_month_simulation", "two_day_fluid_temps_nm"): "same: diagnostic log",
+}
+
+
+def _check_param_mutation(prog: Program, res: Result):
+    """R13.7: a function that changes a list / dict / array PARAMETER in place changes its caller's object.  That carries
+    state from call to call exactly when some call site hands over stored state: an attribute, an element of an attribute
+    container, a module-level container, or the result of a function that returns one of those (may-alias, resolved
+    through the callers' local definitions and the callees' return statements)."""
+    from ..model import bind_args, may_be_stored_state, param_container_mutations
+
+    n_sites = 0
+    n_pairs = 0
+    for q, fi in sorted(prog.funcs.items()):
+        muts = param_container_mutations(fi)
+        if not muts:
+            continue
+        for node, p, how in muts:
+            n_sites += 1
+            hits = []
+            for q2, f2 in sorted(prog.funcs.items()):
+                for c in walk_no_nested(f2.node):
+                    if isinstance(c, ast.Call) and (attr_chain(c.func) or "").split(".")[-1] == fi.name:
+                        b = bind_args(fi, c)
+                        if p in b:
+                            n_pairs += 1
+                            r = may_be_stored_state(prog, f2, b[p])
+                            if r:
+                                hits.append((q2, f2, c, r))
+            acc = PARAM_MUTATION_ACCEPT.get((fi.name, p))
+            if hits and acc:
+                res.ob("R13.7", f"{fi.name}({p}) is changed in place ({how}) and receives stored state ({hits[0][3]}) - accepted: {acc[:90]}", True, prog.loc(fi, node))
+                continue
+            res.ob("R13.7", f"{fi.name}: parameter {p} is changed in place ({how}); no call site hands it stored state", not hits, prog.loc(fi, node))
+            for q2, f2, c, r in hits[:1]:
+                res.violation("R13.7", f"{q}|{p}|{r[:60]}", prog.loc(fi, node), q,
+                              f"{fi.name} changes its parameter {p} in place ({how}) and {q2.split('.')[-1]} passes it {r}: the stored object is altered by every call, so later results depend on how often it was called",
+                              call_site=prog.loc(f2, c))
+    res.count("param_mutation_sites", n_sites)
+    res.count("param_mutation_call_sites", n_pairs)
+    res.floor("param_mutation_sites", 8)
 
 
 def _check_globals_and_nondeterminism(prog: Program, res: Result):
@@ -470,6 +520,20 @@ def _check_nominal_height(prog: Program, res: Result):
 
 M = "ghedesigner.manager"
 VARIANTS = [
+    Variant("radius correction applied in place to the curve it is given (seeded C13_b)", "break",
+            [("ghedesigner.gfunction", """        g_function_corrected = []
+        for g in g_function:
+            g_function_corrected.append(g - log(rb_star / rb))
+        return g_function_corrected""", """        shift = log(rb_star / rb)
+        for i, g in enumerate(g_function):
+            g_function[i] = g - shift
+        return g_function""")], "R13.7"),
+    Variant("radius correction with the shift hoisted, still building a new list", "benign",
+            [("ghedesigner.gfunction", """        g_function_corrected = []
+        for g in g_function:
+            g_function_corrected.append(g - log(rb_star / rb))
+        return g_function_corrected""", """        shift = log(rb_star / rb)
+        return [g - shift for g in g_function]""")]),
     Variant("module-level month table patched in place through a local alias (seeded C08_b)", "break",
             [("ghedesigner.ground_loads", """    if leap_year:
         num_days = [31, 31, 29, 31, 30, 31, 30, 31, 31, 30, 31, 30, 31]
